@@ -476,6 +476,10 @@ def same_value(a, b):
         return False
     if isinstance(b, Term) and b.pytype and isinstance(a, Const) and (a.v is None or type(a.v).__name__ not in (b.pytype, "bool" if b.pytype == "int" else b.pytype, "int" if b.pytype == "bool" else b.pytype)):
         return False
+    if isinstance(a, Term) and isinstance(b, Term) and a.op == "call" and b.op == "call" and isinstance(a.args[0], Builtin) and isinstance(b.args[0], Builtin) and a.args[0].name == b.args[0].name and a.args[0].name in ("str", "repr", "int", "float", "bool", "len", "bytes", "tuple", "abs") and len(a.args[1]) == len(b.args[1]) and not a.args[2] and not b.args[2]:
+        # a pure conversion of the very same value(s) is the same value
+        if all(x is y or same_value(x, y) is True for x, y in zip(a.args[1], b.args[1])):
+            return True
     if isinstance(a, Term) and isinstance(b, Term) and show(a) == show(b):
         return None  # syntactically equal terms: probably equal, but not decided
     return None
@@ -927,6 +931,17 @@ class Interp:
                     if base.get(key) is None and self.opts.get("strict_keys"):
                         raise _Raise(Term("exc", "KeyError"), st)
                     base.delete(key)
+                elif isinstance(base, Lst) and not getattr(base, "is_gen", False):
+                    if isinstance(key, Const) and isinstance(key.v, int) and not isinstance(key.v, bool):
+                        if -len(base.items) <= key.v < len(base.items):
+                            del base.items[key.v]
+                        else:
+                            self.emit("raise", st, value=Term("exc", "IndexError"))
+                            raise _Raise(Term("exc", "IndexError"), st)
+                    elif isinstance(t.slice, ast.Slice) and all(x is None for x in (t.slice.lower, t.slice.upper, t.slice.step)):
+                        del base.items[:]
+                    else:
+                        raise Undecided(f"del on a list with an index that is not a constant (line {st.lineno})")
                 self.emit("del", st, base=base, key=key)
             elif isinstance(t, ast.Name):
                 frame.env.pop(t.id, None)
@@ -972,13 +987,18 @@ class Interp:
         self.loop_counter += 1
         lid = (self.loop_counter, st.lineno)
         it = 0
+        counted = 0  # iterations that involved an undecided condition: only those are bounded by max_while
         maxit = self.opts.get("max_while", 2)
         while True:
             with self.context("loop", lid, it, st):
+                n_dec = len(self.taken)
                 c = self.eval(st.test, frame)
                 if not self.truth(c, st.test):
                     break
-                if it >= maxit:
+                # 'while True:' style loops over a table (exit decided inside the body) get a wider default bound than
+                # loops whose own condition is undecided; an explicit max_while always rules
+                eff = maxit if ("max_while" in self.opts or not isinstance(c, Const)) else max(maxit, 8)
+                if counted >= eff or it > self.opts.get("max_live_for", 500):
                     self.emit("loop-bound", st, loop=lid)
                     raise _Truncate()
                 self.emit("loop-iter", st, loop=lid, it=it)
@@ -990,6 +1010,8 @@ class Interp:
                 except _Continue:
                     pass
                 self.emit("loop-back", st, loop=lid, it=it)
+                if len(self.taken) != n_dec or not isinstance(c, Const):
+                    counted += 1  # a fully decided iteration over concrete data is simply executed (like a for loop)
             it += 1
         self.emit("loop-exit", st, loop=lid, how="cond")
         self.exec_block(st.orelse, frame)
@@ -1543,6 +1565,10 @@ class Interp:
             return self.entity_value(ent, e.id)
         if e.id in BUILTIN_NAMES:
             return Builtin(e.id)
+        if e.id == "NotImplemented":
+            return Const(NotImplemented)
+        if e.id == "Ellipsis":
+            return Const(Ellipsis)
         if e.id == "__name__":
             return Const(frame.module.name)
         raise Undecided(f"unresolved name {e.id} in {frame.module.name} line {e.lineno}")
@@ -2019,16 +2045,49 @@ class Interp:
         if op in ("Eq", "NotEq") and isinstance(l, Obj) and l.cls is not None and l is not r:
             eqm = l.cls.find_method("__eq__")
             pol = self.opts.get("inline", lambda fi, node: False)
-            if eqm is not None and (pol(eqm, node) or getattr(eqm, "synthetic", False)):
-                res = self.run_function(Fn(eqm, l), [r], {}, node)
-                t = self.truth_of(res)
-                if t is not None:
-                    return Const(t if op == "Eq" else not t)
-                return res if op == "Eq" else Term("not", res)
+            # equality defined by a repository class is part of what '==' means for its objects: evaluated whenever both
+            # operands are abstract objects (closed world), otherwise when the inline policy asks for it
+            both_objs = isinstance(r, Obj) and r.cls is not None and self.opts.get("user_eq", True)
+            if eqm is not None and (pol(eqm, node) or getattr(eqm, "synthetic", False) or both_objs):
+                saved_pol = self.opts.get("inline")
+                if both_objs:
+                    # what the comparison consults on the two objects (their own properties and methods) belongs to it
+                    own = set(l.cls.mro) | set(r.cls.mro)
+                    self.opts["inline"] = lambda fi, node_, _s=saved_pol: True if fi.cls in own else (_s(fi, node_) if _s else False)
+                try:
+                    res = self.run_function(Fn(eqm, l), [r], {}, node)
+                except Undecided:
+                    if not both_objs or pol(eqm, node):
+                        raise
+                    res = None
+                finally:
+                    if saved_pol is None:
+                        self.opts.pop("inline", None)
+                    else:
+                        self.opts["inline"] = saved_pol
+                if isinstance(res, Const) and res.v is NotImplemented:
+                    # Python then tries the reflected operation and finally falls back to identity
+                    reqm = r.cls.find_method("__eq__") if isinstance(r, Obj) and r.cls is not None else None
+                    res = self.run_function(Fn(reqm, r), [l], {}, node) if reqm is not None and reqm is not eqm else Const(NotImplemented)
+                    if isinstance(res, Const) and res.v is NotImplemented:
+                        res = Const(l is r)
+                if res is None:
+                    pass
+                else:
+                    t = self.truth_of(res)
+                    if t is not None:
+                        return Const(t if op == "Eq" else not t)
+                    return res if op == "Eq" else Term("not", res)
         if op in ("Eq", "NotEq", "Is", "IsNot"):
             s = same_value(l, r)
             if s is None and op in ("Eq", "NotEq"):
                 s = self.eq_override(l, r)
+            if s is None and op in ("Is", "IsNot", "Eq", "NotEq"):
+                # the result of an arithmetic / string / comparison operation, a constructed object, a formatted string
+                # is never None
+                for x, y in ((l, r), (r, l)):
+                    if isinstance(y, Const) and y.v is None and isinstance(x, Term) and x.op in ("binop", "fstr", "cmp", "not", "new", "comp", "getter", "getters", "partial", "methodcaller", "lambda", "view"):
+                        s = False
             if s is None and op in ("Is", "IsNot"):
                 # identity between two abstract objects is the identity of the model objects (a sentinel object() is not a
                 # list); identity of a symbolic value against None etc. stays symbolic
@@ -2520,6 +2579,21 @@ class Interp:
                     return b_.get(k_)
             elif isinstance(callee.args[1].v, str):
                 return self.get_attr(args[0], callee.args[1].v, node, frame)
+        if isinstance(callee, Foreign) and callee.dotted in ("asyncio.wait_for", "asyncio.shield", "asyncio.tasks.wait_for") and args and isinstance(args[0], Term) and args[0].op == "call" and isinstance(args[0].args[0], Fn) and args[0].args[0].fi.is_async and awaited:
+            # the wrapped coroutine of the repository runs (its effects are the program's), inside a frame that says its
+            # completion is waited for only conditionally (timeout / cancellation)
+            inner = args[0]
+            with self.context("wait_for", callee.dotted, node):
+                r_ = self.run_function(inner.args[0], list(inner.args[1]), {k: v for k, v in inner.args[2] if k is not None}, node)
+            self.emit("call", node, term=Term("call", callee, tuple(args), tuple(kwargs.items())), callee=callee, args=args, kwargs=kwargs, resolved=None, foreign=True, inlined=False, awaited=True)
+            return r_
+        if isinstance(callee, Foreign) and callee.dotted.split(".")[0] == "hashlib" and callee.dotted.split(".")[-1] in ("md5", "sha1", "sha256", "sha512", "blake2b") and len(args) == 1 and isinstance(args[0], Const) and isinstance(args[0].v, bytes) and not [k for k in kwargs if k != "usedforsecurity"]:
+            # a digest of constant bytes (standard library on a constant)
+            import hashlib as _hl
+            h_ = getattr(_hl, callee.dotted.split(".")[-1])(args[0].v)
+            return Obj(None, {"__hex__": Const(h_.hexdigest()), "__digest__": Const(h_.digest()), "__closed__": Const(True)}, label="<hash>")
+        if isinstance(callee, Term) and callee.op == "attr" and isinstance(callee.args[0], Obj) and callee.args[0].label == "<hash>" and callee.args[1] in ("hexdigest", "digest") and not args:
+            return callee.args[0].attrs["__hex__" if callee.args[1] == "hexdigest" else "__digest__"]
         if isinstance(callee, Foreign) and callee.dotted.split(".")[-1] == "partial" and callee.dotted.split(".")[0] in ("functools", "partial") and args:
             return Term("partial", args[0], tuple(args[1:]), tuple(kwargs.items()))
         if isinstance(callee, Term) and callee.op == "partial":
